@@ -72,21 +72,69 @@ theorem cache_val (N : Nat) (a : PS α) (i : Nat) : (cache N a).val i = a.val i 
 
 theorem cache_start (N : Nat) (a : PS α) : (cache N a).start = a.start := rfl
 
-/-- value at position `s + fuel` of the seed-and-recurrence average -/
-def recGo (p : Nat) (upd : α → α → α) (a : PS α) (s : Nat) : Nat → α
-  | 0 => sumL (window p a.val s) / nat p
-  | m + 1 => upd (recGo p upd a s m) (a.val (s + m + 1))
+/-- the recursion `G 0 = f0`, `G (k+1) = fs (G k) k` … -/
+def recG {β : Type} (f0 : β) (fs : β → Nat → β) : Nat → β
+  | 0 => f0
+  | k + 1 => fs (recG f0 fs k) k
 
-/-- seed-and-recurrence averages; `upd prev value` -/
+/-- one tabulation step: append the value for index `m` -/
+def tabStep {β : Type} (d f0 : β) (fs : β → Nat → β) (t : Array β) (m : Nat) : Array β :=
+  t.push (match m with
+    | 0 => f0
+    | k + 1 => fs (t.getD k d) k)
+
+/-- … and its first `n` values tabulated in one pass (`d` is never read) -/
+def tabulate {β : Type} (d : β) (f0 : β) (fs : β → Nat → β) (n : Nat) : Array β :=
+  (List.range n).foldl (tabStep d f0 fs) #[]
+
+theorem tabulate_succ {β : Type} (d f0 : β) (fs : β → Nat → β) (n : Nat) :
+    tabulate d f0 fs (n + 1) = tabStep d f0 fs (tabulate d f0 fs n) n := by
+  simp [tabulate, List.range_succ, List.foldl_append]
+
+theorem tabulate_spec {β : Type} (d f0 : β) (fs : β → Nat → β) (n : Nat) :
+    (tabulate d f0 fs n).size = n ∧ ∀ k, k < n → (tabulate d f0 fs n)[k]? = some (recG f0 fs k) := by
+  induction n with
+  | zero => simp [tabulate]
+  | succ n ih =>
+    obtain ⟨hs, hv⟩ := ih
+    rw [tabulate_succ]
+    refine ⟨by simp [tabStep, hs], ?_⟩
+    intro k hk
+    simp only [tabStep, Array.getElem?_push, hs]
+    by_cases hkn : k = n
+    · simp only [hkn, if_true]
+      cases n with
+      | zero => simp [recG]
+      | succ m =>
+        have hm := hv m (by omega)
+        simp only [recG]
+        congr 2
+        simp [Array.getD_eq_getD_getElem?, hm]
+    · simp only [hkn, if_false]
+      exact hv k (by omega)
+
+/-- a tabulated recursion read with a fall-back: always the recursion's value -/
+def tabVal {β : Type} (d f0 : β) (fs : β → Nat → β) (n : Nat) : Nat → β :=
+  let tab := tabulate d f0 fs n
+  fun k => if h : k < tab.size then tab[k] else recG f0 fs k
+
+theorem tabVal_eq {β : Type} (d f0 : β) (fs : β → Nat → β) (n k : Nat) :
+    tabVal d f0 fs n k = recG f0 fs k := by
+  simp only [tabVal]
+  split
+  · rename_i h
+    obtain ⟨hs, hv⟩ := tabulate_spec d f0 fs n
+    have := hv k (by omega)
+    rw [Array.getElem?_eq_getElem h] at this
+    exact Option.some.inj this
+  · rfl
+
+/-- seed-and-recurrence averages; `upd prev value`.  Value at position `s + k`, `s = start + p − 1`:
+    `G 0 = mean of the first p values`, `G (k+1) = upd (G k) (a (s+k+1))`. -/
 def recAvg (N : Nat) (p : Nat) (upd : α → α → α) (a : PS α) : PS α :=
   let s := a.start + (p - 1)
-  -- tabulate in one pass (same values as `recGo`)
-  let tab : Array α := (List.range (N - s)).foldl
-    (fun (t : Array α) m =>
-      t.push (match m with
-        | 0 => sumL (window p a.val s) / nat p
-        | k + 1 => upd (t.getD k (nat 0)) (a.val (s + k + 1)))) #[]
-  ⟨s, fun i => if h : i - s < tab.size then tab[i - s] else recGo p upd a s (i - s)⟩
+  let v := tabVal (nat 0) (sumL (window p a.val s) / nat p) (fun prev k => upd prev (a.val (s + k + 1))) (N - s)
+  ⟨s, fun i => v (i - s)⟩
 
 def ema (N : Nat) (p : Nat) (smoothing : α) (a : PS α) : PS α :=
   recAvg N p (fun prev v => (v - prev) * (smoothing / nat (p + 1)) + prev) a
@@ -106,29 +154,15 @@ def mstd (p : Nat) (a : PS α) : PS α :=
     let m := sumL w / nat p
     Arith.sqrt (sumL (w.map (fun v => Arith.sq (v - m))) / nat p)⟩
 
-/-- cumulative fold from the start position: `acc_{start-1} = init`, `acc_i = f acc_{i-1} i` -/
-def cumulGo (start : Nat) (init : α) (f : α → Nat → α) : Nat → α
-  | 0 => f init start
-  | m + 1 => f (cumulGo start init f m) (start + m + 1)
+/-- `acc_start = f init start`, `acc_{i+1} = f acc_i (i+1)` -/
 def cumul (N : Nat) (start : Nat) (init : α) (f : α → Nat → α) : PS α :=
-  let tab : Array α := (List.range (N - start)).foldl
-    (fun (t : Array α) m =>
-      t.push (match m with
-        | 0 => f init start
-        | k + 1 => f (t.getD k init) (start + k + 1))) #[]
-  ⟨start, fun i => if h : i - start < tab.size then tab[i - start] else cumulGo start init f (i - start)⟩
+  let v := tabVal init (f init start) (fun acc k => f acc (start + k + 1)) (N - start)
+  ⟨start, fun i => v (i - start)⟩
 
 /-- like `cumul` for an arbitrary state type (used by the SuperTrend formula) -/
-def cumulStateGo {σ : Type} (start : Nat) (init : σ) (f : σ → Nat → σ) : Nat → σ
-  | 0 => f init start
-  | m + 1 => f (cumulStateGo start init f m) (start + m + 1)
 def cumulState {σ : Type} (N : Nat) (start : Nat) (init : σ) (f : σ → Nat → σ) : Nat → σ :=
-  let tab : Array σ := (List.range (N - start)).foldl
-    (fun (t : Array σ) m =>
-      t.push (match m with
-        | 0 => f init start
-        | k + 1 => f (t.getD k init) (start + k + 1))) #[]
-  fun i => if h : i - start < tab.size then tab[i - start] else cumulStateGo start init f (i - start)
+  let v := tabVal init (f init start) (fun acc k => f acc (start + k + 1)) (N - start)
+  fun i => v (i - start)
 
 /-- the formula's values for positions `start … n-1` (what an n-element input must produce) -/
 def toList (a : PS α) (n : Nat) : List α := (List.range (n - a.start)).map (fun k => a.val (a.start + k))
